@@ -581,6 +581,22 @@ tx_outs:\n{tx_outs}
         """Returns whether the input has a valid signature"""
         # get the relevant input
         tx_in = self.tx_ins[input_index]
+        script_pubkey = tx_in.script_pubkey(self.network)
+        # BIP141: a witness program is only spent with an empty ScriptSig, or,
+        # when wrapped in p2sh, with a ScriptSig that is exactly the RedeemScript push
+        if (
+            script_pubkey.is_p2wpkh()
+            or script_pubkey.is_p2wsh()
+            or script_pubkey.is_p2tr()
+        ):
+            if len(tx_in.script_sig.commands) > 0:
+                return False
+        elif script_pubkey.is_p2sh():
+            commands = tx_in.script_sig.commands
+            if len(commands) > 1 and isinstance(commands[-1], bytes):
+                redeem_script = RedeemScript.convert(commands[-1])
+                if redeem_script.is_witness_script():
+                    return False
         # combine the scripts
         combined_script = tx_in.script_sig + tx_in.script_pubkey(self.network)
         # evaluate the combined script
